@@ -66,7 +66,7 @@ from urwid.util import get_encoding, set_encoding
 
 from bounded.common import Check, rng
 from spec.sgr import DEFAULT
-from spec.term_state import ANY, Cell, TermError, Terminal, char_width
+from spec.term_state import SPECIAL_GRAPHICS, Cell, TermError, Terminal, char_width
 
 DEPTHS = (1, 16, 88, 256, 2**24)
 DEC = {"─": b"q", "│": b"x", "┌": b"l", "┘": b"j"}  # VT100 special graphics codes (table 3-9)
@@ -224,8 +224,10 @@ def cell_ok(exp, got):
 
 def cells_equiv(a, b):
     """Do two terminal cells look the same? (for incremental vs full repaint)"""
-    if a.how in ("garbage", "broken") or b.how in ("garbage", "broken"):
-        return False
+    if a.how == "garbage" or b.how == "garbage":
+        return False  # unknown content is never "the same"
+    if a.how == "broken" or b.how == "broken":
+        return a.how == b.how  # the same damage in both (the paint clause reports it)
     if a.how == "erase" and b.how == "erase":
         return a.bg == b.bg
     if a.how == "erase" or b.how == "erase":
@@ -341,6 +343,8 @@ def first_mismatch(frame, depth, snap):
                     kind = g.how
                 elif g.ch != e.ch:
                     kind = "text"
+                    if g.ch is not None and e.ch is not None and (SPECIAL_GRAPHICS.get(g.ch) == e.ch or SPECIAL_GRAPHICS.get(e.ch) == g.ch):
+                        kind = "wrong-character-set"
                 else:
                     kind = "attr"
                     if g.how == "erase":
@@ -441,7 +445,7 @@ def run_history(cfg, ops):
                     v["scroll"] = {"why": "insert mode left on after the draw", "sig": "irm", "step": i}
                 elif snap["pending_sequence"]:
                     v["scroll"] = {"why": "unfinished control sequence after the draw", "sig": "pending", "step": i}
-        if last is not None:
+        if last is not None and len(ops) > 1:  # a single draw IS the full repaint: nothing to compare
             ref = full_repaint_snapshot(cfg, last)
             snap = s.term.snapshot()
             if isinstance(ref, Exception):
@@ -792,7 +796,7 @@ def judge_html(frame, enc, colors):
     try:
         frag = html_draw(frame, enc, colors)
     except Exception as e:  # noqa: BLE001
-        bad = {"why": f"draw_screen raised {type(e).__name__}: {e!r}", "sig": f"raised:{type(e).__name__}"}
+        bad = {"why": f"draw_screen raised {type(e).__name__}: {e!r}", "sig": f"raised:{e!r}"}
         return bad, bad
     tv = cv = None
     if not (frag.startswith("<pre>") and frag.endswith("</pre>")):
@@ -939,7 +943,7 @@ def run(tier="quick", seed=0):
                 detail = None
                 if bad:
                     detail = {"config": cfg_name(cfg), "ops": ops, "family": fam, "bytes_per_draw": v["bytes"]} | {k: x for k, x in bad.items() if k != "sig"}
-                nontrivial = ndraw > 1 or name != "incr"
+                nontrivial = len(ops) > 1 or name != "incr"
                 chk.case(key, not bad, detail, nontrivial=nontrivial, sample=sample, sig=bad["sig"] if bad else None)
 
         # control characters
